@@ -143,6 +143,20 @@ fn check_state<K: Kern<D>, const D: usize>(w: &World<K, D>, s: &Snap, ctx: &str,
         if g != edges || ix.number_of_edges() != edges.len() {
             bad("edges_mismatch", "AdjacencyIndex::edges", format!("{} vs {} edges", g.len(), edges.len()), log);
         }
+        // "indexed and non-indexed variants agree with each other": as values, not only as unordered
+        // endpoint pairs — an EdgeKey is Eq + Hash, so the same edge must be the same key everywhere
+        let raw = |e: delaunay::core::edge::EdgeKey| -> (u64, u64) {
+            let (a, b) = e.endpoints();
+            (vkey_u64(a), vkey_u64(b))
+        };
+        let plain: BTreeSet<(u64, u64)> = dt.edges().map(raw).collect();
+        let indexed: BTreeSet<(u64, u64)> = dt.edges_with_index(ix).map(raw).collect();
+        let from_index: BTreeSet<(u64, u64)> = ix.edges().map(raw).collect();
+        let norm = |x: &BTreeSet<(u64, u64)>| -> BTreeSet<(u64, u64)> { x.iter().map(|&(a, b)| if a <= b { (a, b) } else { (b, a) }).collect() };
+        if (plain != indexed && norm(&plain) == norm(&indexed)) || (plain != from_index && norm(&plain) == norm(&from_index)) {
+            let d: Vec<_> = plain.symmetric_difference(&indexed).chain(plain.symmetric_difference(&from_index)).take(2).collect();
+            bad("edge_keys_differ_between_variants", "edges_with_index", format!("edges() and the indexed enumerations return different EdgeKey values for the same edge (endpoint order), e.g. {:x?}", d), log);
+        }
     }
     // ---- per vertex ----
     let empty_e: BTreeSet<(u64, u64)> = BTreeSet::new();
@@ -188,6 +202,19 @@ fn check_state<K: Kern<D>, const D: usize>(w: &World<K, D>, s: &Snap, ctx: &str,
             (a, b) => bad("vertex_coords_mismatch", "vertex_coords", format!("vertex {:#x}: query {:?}, stored present={}", vk, a.map(|x| x.to_vec()), b.is_some()), log),
         }
         if let Some(ix) = &index {
+            {
+                let raw = |e: delaunay::core::edge::EdgeKey| -> (u64, u64) {
+                    let (a, b) = e.endpoints();
+                    (vkey_u64(a), vkey_u64(b))
+                };
+                let plain: BTreeSet<(u64, u64)> = dt.incident_edges(k).map(raw).collect();
+                let indexed: BTreeSet<(u64, u64)> = dt.incident_edges_with_index(ix, k).map(raw).collect();
+                let norm = |x: &BTreeSet<(u64, u64)>| -> BTreeSet<(u64, u64)> { x.iter().map(|&(a, b)| if a <= b { (a, b) } else { (b, a) }).collect() };
+                // (only when both variants list the same edges: a partial answer is reported below)
+                if plain != indexed && norm(&plain) == norm(&indexed) {
+                    bad("edge_keys_differ_between_variants", "incident_edges_with_index", format!("vertex {:#x}: incident_edges() and incident_edges_with_index() return different EdgeKey values for the same edges", vk), log);
+                }
+            }
             let g: BTreeSet<(u64, u64)> = dt.incident_edges_with_index(ix, k).map(edge_pair).collect();
             if g != *want_e || tri.number_of_incident_edges_with_index(ix, k) != want_e.len() || ix.number_of_incident_edges(k) != want_e.len() {
                 bad("incident_edges_mismatch", "incident_edges_with_index", format!("vertex {:#x}", vk), log);
